@@ -1,6 +1,8 @@
 """C17 — reported diagnostics describe the run that happened (engine B)."""
 import numpy as np
 
+from mc.ref import pen as RP
+
 from mc import registry as R
 from mc import traj
 from mc.drivers import c01, c03
@@ -120,7 +122,10 @@ def check_column(comp, nodes, ks, e):
         if n < k and k >= 1 and np.isfinite(sc) and s not in ("LBFGS", "PDCD_WS"):
             viol, parts = C.certificate(c, w)
             expected = viol
-            if not (abs(sc - expected) <= 1e-9 * max(1.0, abs(expected)) + 1e-12):
+            slack = 0.0
+            if C.strategy_of(c["solver"]) == "fixpoint" and c["penalty"]["name"] not in RP.CONVEX:
+                slack = 1e-6 * (1 + float(np.max(np.abs(w))))      # accuracy of the brute-force reference prox of non-convex penalties (as in C01)
+            if not (abs(sc - expected) <= 1e-9 * max(1.0, abs(expected)) + 1e-12 + slack):
                 out.append(("stop_value_not_violation_of_returned_point", (k, e), sc, expected))
     # entry i of the longest history vs the point returned with budget i+1
     kmax = max((k for k in ks if k in objs), default=None)
